@@ -88,7 +88,7 @@ def segmentations(n):
 
 DELIMS = [b"-", b"--", b"ab", b"aba", "é".encode(), b"\t", b","]
 FILLERS = ["<", ">", "x", "{{", "}}", "\\n", " ", "é", "-", "z", "-z", "-mjz"]   # the last ones look like flags when the text starts with them
-FALLBACKS = ["", "F", "a-b", "é"]
+FALLBACKS = ["", "F", "a-b", "é", " ", "x ", " y"]
 
 
 def alphabet_for(d, z, rich=True):
@@ -101,6 +101,18 @@ def alphabet_for(d, z, rich=True):
             # characters whose code point has the delimiter as its low byte (U+01dd, U+04dd): a `char as u8` comparison confuses them
             a += [chr(0x100 + d[0]).encode(), chr(0x400 + d[0]).encode()]
     return a, eol
+
+
+MEDIUM = [15, 16, 17, 31, 32, 33, 42, 43, 63, 64, 65, 100, 127, 128, 129, 200, 255, 256, 257, 300, 511, 512, 513]
+
+
+def medium_run(rng, atoms):
+    """a run of 15-513 atoms (one atom repeated, or a random mix): sizes between the tiny records and the large-input stream, where
+    fixed-size stack buffers, small-string optimisations and `len * k <= N` shortcuts live"""
+    n = rng.choice(MEDIUM)
+    if rng.random() < 0.6:
+        return [rng.choice(atoms)] * n
+    return [rng.choice(atoms) for _ in range(n)]
 
 
 def rand_record(rng, alpha, maxlen=8):
@@ -197,6 +209,10 @@ def rand_input(rng, d, z, nrec=None, rich=True):
             recs.append(rand_field_record(rng, d))
         else:
             recs.append(rand_record(rng, alpha))
+    if recs and rng.random() < 0.04:
+        k = rng.randrange(len(recs))
+        cut = rng.randint(0, len(recs[k]))
+        recs[k] = recs[k][:cut] + b"".join(medium_run(rng, [a for a in alpha if a != eol] or [b"x"])) + recs[k][cut:]
     data = eol.join(recs)
     if rng.random() < 0.7:
         data += eol
